@@ -21,7 +21,7 @@ from vf.core import CaseResult, Ctx, Violation, hyp_run, exc_sig
 
 PROP_ID = 'C13'
 LEVEL = 'exploration'
-BUDGET = {'quick': 3000, 'thorough': 100000}
+BUDGET = {'quick': 3000, 'thorough': 80000}
 MANIFEST = {
     'engine': 'P',
     'technique': 'Hypothesis trigger trees through real config/TaskProxy, '
